@@ -3,18 +3,21 @@ import H4.Driver.Rle
 import H4.Driver.Slab
 import H4.Driver.Conv
 import H4.Driver.HPIO
+import H4.Driver.Atom
 open H4.Driver
 
 /-- state of every stateful engine; reset at each `CASE` line -/
 structure World where
   dummy : Nat := 0
   hp : H4.HPIO.HP := H4.HPIO.opened []
+  atom : H4.Atom.State := H4.Atom.State.init
 
 def stepWorld (w : World) (engine : String) (args : List String) : World × String :=
   match engine with
   | "rle" => (w, stepRle args)
   | "sd" => (w, stepSd args)
   | "conv" => (w, stepConv args)
+  | "atom" => let (a, out) := stepAtom w.atom args; ({ w with atom := a }, out)
   | "hp" => let (h, r) := stepHp w.hp args; ({ w with hp := h }, r)
   | _ => (w, "bad-engine")
 
